@@ -206,8 +206,8 @@ func zzHavoc(name string, ptr interface{}, spec string) {
 			if ln > n {
 				ln = n
 			}
-			if ln == 0 {
-				return
+			if ln == 0 && vals[name+".nil"] != "false" {
+				return // nil slice (also the default when the scenario does not say)
 			}
 			s := reflect.MakeSlice(t, ln, n)
 			for i := 0; i < ln; i++ {
